@@ -96,7 +96,7 @@ _PROG_RULE = ('fonts enumerated by gen/progenum.py and filtered by the REAL load
               '{NEXT, PUT_GLYPH x|y, PUT_SUBS -1|0|+1, PUT_COPY -1|0|+1, INSERT, DELETE, ASSOC, attach.to -2..2, ATTR_SET adv/shift/att/insert, IATTR_SET user, SET_FEAT, slot/glyph-attr readers} x 6 terminators '
               '(RET_ZERO, POP_RET -2..2), in 3 (quick) / 6 (thorough) rule contexts (rule length 1..3, pre-context 0..1, maxRuleLoop 1/2/5, substitution or positioning pass) followed by a fixed attaching pass; '
               '(constraint) every constraint program of <=4 / <=5 atoms over 20 atoms incl. CNTXT_ITEM bodies netting 0/+1/+2; (twopass) all ordered pairs (thorough: triples) of 18 hand-written attach/re-attach/delete/insert/copy/assoc rules '
-              'in two passes / one pass / substitution+positioning, LTR and RTL fonts.  Every accepted font x every text of length 0..3 (thorough 0..4) over {a, b, unmapped} + astral/mark/long texts x dir flags {0,1,3,6} (thorough 0..7) x {font NULL, ppm 12}. ')
+              'in two passes / one pass / substitution+positioning, LTR and RTL fonts; (manyrules) scale seeds with 43..200 rules per rule length 1..4 ending in successive success states (candidate lists beyond the 128-entry rule buffers of the engine).  Every accepted font x every text of length 0..3 (thorough 0..4) over {a, b, unmapped} + astral/mark/long texts x dir flags {0,1,3,6} (thorough 0..7) x {font NULL, ppm 12}. ')
 
 for _p, _what in (('C02', 'oracle: ASan/UBSan silence, rule-loop counter hook <= maxRuleLoop x (slots + insert budget + 2), n_slots <= 64 x max(1,nChars), all gr_seg_*/gr_slot_*/gr_cinfo_* queries incl. every gr_slot_attr code, allocation balance, table borrow discipline'),
                   ('C03', 'oracle: next/prev chain visits exactly n_slots distinct slots ending at last, prev inverse, indices a permutation, finite positions, gid < n_glyphs'),
@@ -104,7 +104,7 @@ for _p, _what in (('C02', 'oracle: ASan/UBSan silence, rule-loop counter hook <=
                   ('C05', 'oracle: n_cinfo == nChars, characters and bases equal the reference decoding, slot before/after/original in range, every character covered, cinfo before/after in [0,n_slots)')):
     CHECKS[_p] = dict(
         level='exploration',
-        steps=[dict(name='program_enumeration', py=stream_families(['twopass', 'constraint', 'action'], _p), targets=[('asan', 'c02_stream')]),
+        steps=[dict(name='program_enumeration', py=stream_families(['twopass', 'manyrules', 'constraint', 'action'], _p), targets=[('asan', 'c02_stream')]),
                dict(name='accepted_load_mutants', py=cached_binary('c01_load', _p, 'C01'), targets=[('asan', 'c01_load')])],
         rule=_PROG_RULE + 'Additionally every C01 load mutant (single byte / field / field pair / truncation deviations of the seed fonts) that the loader accepts is shaped with 4 texts x dir {0,1,3}. ' + _what + '. distinct = distinct structural segment dumps (slots, glyphs, attachments, associations) observed',
         level_text='Bounded exhaustive enumeration of rule programs (the font is the program) crossed with all short texts and direction flags, each executed on the real engine under sanitizers with the structural oracle evaluated on every resulting segment.',
